@@ -2,6 +2,8 @@ import HmfVerif.Real.Tactics
 import HmfVerif.Gen.ExprGrowth
 import HmfVerif.Gen.ExprFlow
 import HmfVerif.Spec.Wiring
+import HmfVerif.Gen.Guards
+import HmfVerif.Spec.Guards
 /-!
 # C09 — growth factor: normalisation, Einstein–de Sitter limits, dispatch  (mostly numerical: see DESIGN)
 The integral model (quadrature of 1/(aE)³), the splines and CAMB are opaque; what is algebra on the
@@ -87,5 +89,8 @@ theorem transfer_growth_dispatch :
 end
 /-- the growth component is built from the object's cosmology (with `cosmo_params` applied) and `growth_params` only -/
 theorem growth_component_wiring : Gen.Flow.wiring.lookup "Transfer.growth" = some Spec.Wiring.growth := by decide
+
+/-- branch conditions of the closed-form growth models are the documented ones; no new special case -/
+theorem guards_growth : Gen.Guards.growth = Spec.Guards.growth := by decide
 
 end Hmf.C09
